@@ -1,8 +1,8 @@
 SPECIFICATION Spec
 CONSTANTS
   Mode = "every_label"
-  NameLens = {1, 4, 8}
-  ThreadLens = {3, 4}
+  NameLens = {1, 5}
+  ThreadLens = {3, 4, 5}
   ValLens = {2, 9}
   ColW = 8
   MaxRows = 5
